@@ -709,21 +709,21 @@ Proof.
   - (* no lead anchor: take the last character *)
     destruct sy as [|c0 sy0] eqn:Esy; [cbn in Hlen; lia|].
     destruct (@exists_last _ (c0 :: sy0)) as (s0 & c & Es); [discriminate|]. rewrite Es in *.
-    apply Forall_app in Hchars. destruct Hchars as [_ Hc1]. inversion Hc1 as [|? ? Hcc _]; subst.
+    apply Forall_app in Hchars. destruct Hchars as [_ Hc1]. pose proof (Forall_inv Hc1) as Hcc. cbn beta in Hcc.
     exists (pre ++ s0), [c], post. split; [repeat rewrite <- app_assoc; reflexivity|].
     cbn [app]. apply (MS_cons catp x B (pre ++ s0) [c] [] post); [apply Hc; exact Hcc|].
     rewrite <- app_assoc. exact HMB.
   - destruct B as [|b [|b' B]]; [ | | cbn in LB; lia].
     + (* no trail anchor: take the first character *)
-      destruct sy as [|c s1]; [cbn in Hlen; lia|]. inversion Hchars as [|? ? Hcc _]; subst.
+      destruct sy as [|c s1]; [cbn in Hlen; lia|]. pose proof (Forall_inv Hchars) as Hcc. cbn beta in Hcc.
       apply MSeq_single in HMA.
       exists pre, [c], (s1 ++ post). split; [reflexivity|].
       cbn [app]. apply (MS_cons catp a [x] pre [] [c] (s1 ++ post)); [exact HMA|].
       apply MSeq_single. apply Hc; exact Hcc.
     + (* both anchors: the repeat is {1} *)
       destruct Hboth as [-> ->]; try discriminate.
-      assert (n = 1%nat) by (unfold MAXREPEAT in Hn2; lia). subst n.
-      destruct sy as [|c [|c' s1]]; try (cbn in Hlen; lia). inversion Hchars as [|? ? Hcc _]; subst.
+      assert (Hn : n = 1%nat) by (unfold MAXREPEAT in Hn2; lia). rewrite Hn in Hlen.
+      destruct sy as [|c [|c' s1]]; try (cbn in Hlen; lia). pose proof (Forall_inv Hchars) as Hcc. cbn beta in Hcc.
       apply MSeq_single in HMA.
       exists pre, [c], post. split; [reflexivity|].
       cbn [app]. apply (MS_cons catp a [x; b] pre [] [c] post); [exact HMA|].
